@@ -26,8 +26,87 @@ from extract_constants import tokenize  # noqa: E402
 from extract_formulas import Parser, Untranslatable  # noqa: E402
 
 FILES = ['src/min_curve/ops.rs', 'src/ark_curve/ops/projective.rs', 'src/ark_curve/ops/affine.rs']
+FIELD_FILES = ['src/fields/fq/ops.rs', 'src/fields/fr/ops.rs', 'src/fields/fp/ops.rs']
 TRAITS = {'Add': 'add', 'Sub': 'sub', 'Neg': 'neg', 'Mul': 'mul', 'AddAssign': 'add', 'SubAssign': 'sub', 'MulAssign': 'mul'}
+FIELD_TRAITS = dict(TRAITS, Div='div', DivAssign='div', Sum='sum', Product='prod')
 ELEM = ('Element', 'AffinePoint', 'Self')
+FIELD_ELEM = ('Fq', 'Fr', 'Fp', 'Self')
+
+
+class FieldOps:
+    """operator forms of a prime field (src/fields/*/ops.rs) on the denoted field element: the inherent methods `add`, `sub`, `mul`,
+    `neg`, `inverse` of the backend wrapper are the field operations by contract (C10: fiat-crypto / arkworks arithmetic), `unwrap`
+    of `inverse()` is the inverse (division by zero panics: the denotation is for a non-zero divisor), `fold(ZERO, Add::add)` is the
+    sum of the list."""
+
+    def ev(self, e, env):
+        k = e[0]
+        if k == 'path':
+            if e[1] in env:
+                return env[e[1]]
+            if e[1] in ('Self::ZERO', 'Self::ONE'):
+                return ('0' if e[1].endswith('ZERO') else '1', 'g')
+            if e[1] in ('Add::add', 'Mul::mul'):
+                return ('+' if e[1] == 'Add::add' else '*', 'op')
+            raise Untranslatable('name %s' % e[1])
+        if k == 'un':
+            v, t = self.ev(e[2], env)
+            if e[1] in ('&', '*'):
+                return (v, t)
+            if e[1] == '-' and t == 'g':
+                return ('(-%s)' % v, 'g')
+            raise Untranslatable('unary %s' % e[1])
+        if k == 'bin':
+            (a, ta), (b, tb) = self.ev(e[2], env), self.ev(e[3], env)
+            if ta == tb == 'g' and e[1] in '+-*/':
+                return ('(%s %s %s)' % (a, e[1], b), 'g')
+            raise Untranslatable('binary %s' % e[1])
+        if k == 'method':
+            v, t = self.ev(e[1], env)
+            av = [self.ev(x, env) for x in e[3]]
+            if t == 'g' and e[2] in ('add', 'sub', 'mul') and [x[1] for x in av] == ['g']:
+                return ('(%s %s %s)' % (v, {'add': '+', 'sub': '-', 'mul': '*'}[e[2]], av[0][0]), 'g')
+            if t == 'g' and e[2] == 'neg' and not av:
+                return ('(-%s)' % v, 'g')
+            if t == 'g' and e[2] == 'inverse' and not av:
+                return ('(%s)⁻¹' % v, 'ginv')
+            if t == 'ginv' and e[2] in ('unwrap', 'expect'):
+                return (v, 'g')
+            if t == 'g' and e[2] in ('clone', 'into', 'borrow') and not av:
+                return (v, t)
+            if t == 'iter' and e[2] == 'fold' and len(av) == 2 and av[0][1] == 'g' and av[1][1] == 'op':
+                return ('(%s.foldl (fun x y => x %s y) %s)' % (v, av[1][0], av[0][0]), 'g')
+            raise Untranslatable('method .%s on %s' % (e[2], t))
+        raise Untranslatable('expression %s' % k)
+
+    def run(self, stmts, env, assign_trait):
+        env = dict(env)
+        for i, s in enumerate(stmts):
+            k = s[0]
+            if k == 'let' and s[1][0] == 'pname' and s[2] is not None:
+                env[s[1][1]] = self.ev(s[2], env)
+                continue
+            if k in ('assign', 'derefassign'):
+                _, name, op, e = s
+                v = self.ev(e, env)
+                if op:
+                    v = self.ev(('bin', op, ('path', name), e), env)
+                env[name] = v
+                continue
+            if k == 'expr' and s[1][0] == 'method' and s[1][1] == ('path', 'self') and s[1][2] in ('mul_assign', 'div_assign', 'add_assign', 'sub_assign') and len(s[1][3]) == 1:
+                b, tb = self.ev(s[1][3][0], env)
+                if tb != 'g':
+                    raise Untranslatable('in-place operand')
+                env['self'] = ('(%s %s %s)' % (env['self'][0], {'mul_assign': '*', 'div_assign': '/', 'add_assign': '+', 'sub_assign': '-'}[s[1][2]], b), 'g')
+                continue
+            if k == 'expr' and i == len(stmts) - 1 and (not s[2] or s[1][0] == 'path') and not assign_trait:
+                return self.ev(s[1], env)
+            if k == 'expr' and s[1][0] == 'path' and i == len(stmts) - 1:
+                return self.ev(s[1], env)
+            raise Untranslatable('statement %s' % k)
+        if assign_trait:
+            return env['self']
+        raise Untranslatable('no value')
 
 
 def kind_of(ty):
@@ -140,10 +219,11 @@ class OpsParser(Parser):
         return super().stmt()
 
 
-def impls(src):
-    for m in re.finditer(r'\bimpl\b\s*(<[^>]*>)?\s*(\w+)\s*(?:<\s*([^>{]*?)\s*>)?\s+for\s+([^{]+?)\s*\{', src):
-        trait, rhs, lhs = m.group(2), m.group(3), m.group(4).strip()
-        if trait not in TRAITS:
+def impls(src, traits=None):
+    traits = traits or TRAITS
+    for m in re.finditer(r'\bimpl\b\s*(<[^>]*>)?\s*((?:\w+::)*\w+)\s*(?:<\s*([^>{]*?)\s*>)?\s+for\s+([^{]+?)\s*\{', src):
+        trait, rhs, lhs = m.group(2).split('::')[-1], m.group(3), m.group(4).strip()
+        if trait not in traits:
             continue
         depth, j = 1, m.end()
         while depth:
@@ -151,7 +231,7 @@ def impls(src):
             depth -= src[j] == '}'
             j += 1
         body = src[m.end():j - 1]
-        f = re.search(r'\bfn\s+(\w+)\s*\(([^)]*)\)[^{]*\{', body)
+        f = re.search(r'\bfn\s+(\w+)\s*(?:<[^(]*>)?\s*\(([^)]*)\)[^{]*\{', body)
         if not f:
             continue
         depth, e = 1, f.end()
@@ -211,14 +291,60 @@ def main():
                 report['forms'][rel][trait] += 1
             except (Untranslatable, IndexError, KeyError) as ex:
                 report['untranslated'].append('%s: %s' % (label, ex))
+    flists = {'add': [], 'sub': [], 'mul': [], 'div': [], 'neg': [], 'sum': [], 'prod': []}
+    for rel in FIELD_FILES:
+        try:
+            src = open(os.path.join(repo, rel)).read()
+        except OSError as ex:
+            report['untranslated'].append('%s: %s' % (rel, ex))
+            continue
+        for trait, rhs, lhs, params, body, line in impls(src, FIELD_TRAITS):
+            label = '%s:%d %s<%s> for %s' % (rel, line, trait, rhs or '', lhs)
+            op = FIELD_TRAITS[trait]
+            try:
+                if lhs.replace('&', '').strip().split()[-1] not in FIELD_ELEM:
+                    raise Untranslatable('self type %s' % lhs)
+                ps = [p.strip() for p in params.split(',') if p.strip()]
+                stmts = OpsParser(tokenize(body)).block()
+                if op in ('sum', 'prod'):
+                    mm = re.match(r'(?:mut\s+)?(\w+)\s*:', ps[0]) if ps else None
+                    if not mm:
+                        raise Untranslatable('iterator parameter')
+                    v, t = FieldOps().run(stmts, {mm.group(1): ('l', 'iter')}, False)
+                    fn = 'fun l => %s' % v
+                else:
+                    env = {'self': ('a', 'g')}
+                    for p in ps[1:]:
+                        mm = re.match(r'(?:mut\s+)?(\w+)\s*:\s*(.+)$', p)
+                        ty_ = re.sub(r"&\s*('\w+\s+)?(mut\s+)?", '', mm.group(2)).strip() if mm else None
+                        if ty_ not in FIELD_ELEM:
+                            raise Untranslatable('parameter %s' % p)
+                        env[mm.group(1)] = ('b', 'g')
+                    v, t = FieldOps().run(stmts, env, trait.endswith('Assign'))
+                    fn = ('fun a => %s' if op == 'neg' else 'fun a b => %s') % v
+                if t != 'g':
+                    raise Untranslatable('result of kind %s' % t)
+                flists[op].append((label, fn))
+                report['forms'].setdefault(rel, {}).setdefault(trait, 0)
+                report['forms'][rel][trait] += 1
+            except (Untranslatable, IndexError, KeyError, AttributeError) as ex:
+                report['untranslated'].append('%s: %s' % (label, ex))
     ty = {'add': 'G → G → G', 'sub': 'G → G → G', 'neg': 'G → G', 'mul': 'ℕ → G → G'}
     parts = ['/- GENERATED by translator/extract_opforms.py from the Rust sources of the repository; do not edit. -/',
-             'import Mathlib.Algebra.Group.Defs', 'import Mathlib.Algebra.Group.Basic', '', 'namespace Gen.OpForms', 'variable {G : Type} [AddCommGroup G]', '']
+             'import Mathlib.Algebra.Group.Defs', 'import Mathlib.Algebra.Group.Basic', 'import Mathlib.Algebra.Field.Defs', '', 'namespace Gen.OpForms', 'variable {G : Type} [AddCommGroup G]', '']
     for op in ('add', 'sub', 'neg', 'mul'):
         parts.append('/-- every `%s`-like operator form found in the sources (label, denotation) -/' % op)
         parts.append('def %sForms : List (String × (%s)) := [' % (op, ty[op]))
         parts.append(',\n'.join('  ("%s", %s)' % (l.replace('"', "'").replace('\\', ''), f) for l, f in lists[op]))
         parts.append(']\n')
+    parts.append('end Gen.OpForms\n\nnamespace Gen.FieldOpForms\nvariable {K : Type} [Field K]\n')
+    fty = {'add': 'K → K → K', 'sub': 'K → K → K', 'mul': 'K → K → K', 'div': 'K → K → K', 'neg': 'K → K', 'sum': 'List K → K', 'prod': 'List K → K'}
+    for op in ('add', 'sub', 'mul', 'div', 'neg', 'sum', 'prod'):
+        parts.append('/-- every `%s`-like operator form of the three prime fields found in the sources (label, denotation) -/' % op)
+        parts.append('def %sForms : List (String × (%s)) := [' % (op, fty[op]))
+        parts.append(',\n'.join('  ("%s", %s)' % (l.replace('"', "'").replace('\\', ''), f) for l, f in flists[op]))
+        parts.append(']\n')
+    parts.append('end Gen.FieldOpForms\n\nnamespace Gen.OpForms')
     if report['untranslated']:
         parts.append('/- forms outside the translator\'s grammar (tied by the correspondence check only):')
         parts += ['   ' + u.replace('-/', '- /') for u in report['untranslated']]
@@ -229,8 +355,9 @@ def main():
     if old != text:
         open(out, 'w').write(text)
     report['counts'] = {op: len(v) for op, v in lists.items()}
+    report['field_counts'] = {op: len(v) for op, v in flists.items()}
     json.dump(report, open(os.path.splitext(out)[0] + '.index.json', 'w'), indent=1, sort_keys=True)
-    print('opforms: %s translated, %d untranslated' % (report['counts'], len(report['untranslated'])))
+    print('opforms: %s + field %s translated, %d untranslated' % (report['counts'], report['field_counts'], len(report['untranslated'])))
 
 
 if __name__ == '__main__':
